@@ -49,7 +49,7 @@ Definition realize_field_check_sflags : Z := SF_STD_FIELD_POS.
    constant or enumerator (globals of kind _CFFI_OP_CONSTANT_INT or _CFFI_OP_ENUM).  The statements
    after `neg = g->address(&gc)`, translated one by one by tools/props/c12_regen.py; neg : int,
    value = gc.value : unsigned long long.  Source text:
-     if (neg == 0 && gc.value > MAX_SSIZE_T) return parse_error(tok, "integer constant too large"); if (neg == 0 || gc.value == 0) { length = (size_t)gc.value; break; } if (neg != 1) return parse_error(tok, "disagreement about" " this constant's value");
+     if (neg == 0 && gc.value > MAX_SSIZE_T) return parse_error(tok, "integer constant too large"); if (neg == 0 || (neg == 1 && gc.value == 0)) { length = (size_t)gc.value; break; } if (neg != 1) return parse_error(tok, "disagreement about" " this constant's value");
    then: default: return parse_error(tok, "expected a positive integer constant") *)
 (* #define MAX_SSIZE_T (((size_t)-1) >> 1), size_t = unsigned 64-bit *)
 Definition gen_MAX_SSIZE_T : Z := Z.shiftr (2 ^ 64 - 1) 1.
@@ -57,7 +57,7 @@ Definition gen_MAX_SSIZE_T : Z := Z.shiftr (2 ^ 64 - 1) 1.
 Definition gen_ps_const_length (neg value : Z) : ps_len :=
   let v_neg := neg in
   if ((v_neg =? 0) && (value >? gen_MAX_SSIZE_T)) then PSErr PSTooLarge else
-  if ((v_neg =? 0) || (value =? 0)) then PSLen value else
+  if ((v_neg =? 0) || ((v_neg =? 1) && (value =? 0))) then PSLen value else
   if (negb (v_neg =? 1)) then PSErr PSDisagree else
   PSErr PSNotPositive.
 
